@@ -162,6 +162,13 @@ def arg_code(atom, n, v):
         return [], [], [v[0].lower()], []
     if isinstance(atom, A.ClsArg):
         return [], [], ["zz_obj%d" % v], []
+    if isinstance(atom, A.PtrPtrOut):
+        return ["%s, pointer :: %s(:)" % (atom.t.fdecl, z)], [], [z], [obs_array(atom.t, z)]
+    if isinstance(atom, A.VoidPtr):
+        return ["integer(C_INT), target :: %s" % z], ["%s = %s" % (z, flit(A.NATIVE["int"], v))], ["c_loc(%s)" % z], [obs_scalar(A.NATIVE["int"], z)]
+    if isinstance(atom, A.StrArrIn):
+        ln, texts = v
+        return ["character(len=%d) :: %s(%d)" % (ln, z, len(texts))], ["%s(%d) = %s" % (z, i + 1, fstr(t)) for i, t in enumerate(texts)], [z], []
     if isinstance(atom, A.StructArg):
         ti, td = A.NATIVE["int"], A.NATIVE["double"]
         d = ["type(pt) :: %s" % z]
